@@ -10,6 +10,7 @@ import Ypv.Props.C02
 #print axioms Ypv.C02.results_pathed
 #print axioms Ypv.C02.path_reresolves
 #print axioms Ypv.C02.path_reresolves_as
+#print axioms Ypv.C02.path_reresolves_aliased
 #print axioms Ypv.C02.path_reresolves_query
 #print axioms Ypv.Acc.parseWith_texts_join
 #print axioms Ypv.Acc.accObj_eq
